@@ -186,6 +186,21 @@ class StmtMixin:
             return
         raise Unsupported(f"assignment target {type(tgt).__name__}")
 
+    def st_With(self, n, st):
+        """`with open(path, mode) as f:` — the file's content is a symbolic list of lines, a function of the path."""
+        if len(n.items) != 1 or n.items[0].optional_vars is None or not isinstance(n.items[0].optional_vars, ast.Name):
+            raise Unsupported("with statement shape")
+        ce = n.items[0].context_expr
+        if not (isinstance(ce, ast.Call) and isinstance(ce.func, ast.Name) and ce.func.id == "open"):
+            raise Unsupported("with on something that is not open()")
+        for st1, path in self.ev(ce.args[0], st):
+            if isinstance(path, Raise):
+                yield st1, ("raise", path)
+                continue
+            s = st1.fork()
+            s.env[n.items[0].optional_vars.id] = Val(path.t, "file")
+            yield from self.exec_block(n.body, s)
+
     def st_Try(self, n, st):
         if n.finalbody or n.orelse:
             raise Unsupported("try/finally/else")
